@@ -54,6 +54,14 @@ type Op struct {
 	Task  string         `json:"task,omitempty"`
 	Rules []hnsw.AutoLinkRule `json:"rules,omitempty"`
 	Reason string        `json:"reason,omitempty"`
+	Rels  []string `json:"rels,omitempty"`  // query ops: allowed relations / traversal paths
+	Depth int      `json:"depth,omitempty"` // query ops: max depth
+	T     int64    `json:"t,omitempty"`     // query ops: as-of time (0 = now)
+	Dir   string   `json:"dir,omitempty"`   // query ops: direction
+	Q     string   `json:"q,omitempty"`     // query text / filter expression
+	KK    int      `json:"kk,omitempty"`    // k
+	Ef    int      `json:"ef,omitempty"`
+	Alpha float64  `json:"alpha,omitempty"`
 	// Expect is set by generators that know the op must be rejected (C05).
 	Expect string `json:"expect,omitempty"`
 }
